@@ -93,7 +93,9 @@ func witness(cs *Case, upto int, infos []evInfo, dec []bool, lk limKey) map[stri
 // evalSeq runs one sequential case against the real pipeline and compares
 // every decision with the reference model.
 func evalSeq(cs *Case, withIsolation bool) *caseResult {
-	res := &caseResult{Seed: cs.Seed, Clause: "seq", Counters: map[string]int64{}}
+	cl := cs.Clause // "seq", or "many" (long rule lists, same oracle)
+	many := cl == "many"
+	res := &caseResult{Seed: cs.Seed, Clause: cl, Counters: map[string]int64{}}
 	dec, _, err := runSeq(cs, nil)
 	if err != nil {
 		if err == errWatchdog || err == errRefused {
@@ -107,6 +109,10 @@ func evalSeq(cs *Case, withIsolation bool) *caseResult {
 		return res
 	}
 	m := newModel(&cs.Cfg)
+	// many: which rules saw one (key, bucket), and which of them rejected there
+	rulesAt := map[keyBkt]map[int]bool{}
+	rejAt := map[keyBkt]map[int]bool{}
+	evOfRule := map[int]int{}
 	sm := newSums()
 	infos := make([]evInfo, cs.NEvents)
 	beh := map[string]bool{}
@@ -147,7 +153,22 @@ func evalSeq(cs *Case, withIsolation bool) *caseResult {
 			res.count("ev_"+in.Where+"_"+ds, 1)
 			res.count("ev_"+in.Limiter+"_"+ds, 1)
 			res.count("ev_tclass_"+e.TClass, 1)
-			res.count("ev_rule_"+ruleName(&cs.Cfg, in.Rule), 1)
+			if many {
+				band := ruleBand(&cs.Cfg, in.Rule)
+				res.count("ev_rule_"+band+"_"+ds, 1)
+				beh[band+"/"+ds] = true
+				k := keyBkt{in.Key, in.Bucket}
+				if rulesAt[k] == nil {
+					rulesAt[k], rejAt[k] = map[int]bool{}, map[int]bool{}
+				}
+				rulesAt[k][in.Rule] = true
+				if !p {
+					rejAt[k][in.Rule] = true
+				}
+				evOfRule[in.Rule]++
+			} else {
+				res.count("ev_rule_"+ruleName(&cs.Cfg, in.Rule), 1)
+			}
 			beh[in.Where+"/"+in.Limiter+"/"+ds] = true
 			lk := limKey{in.Rule, in.Key}
 			if prev, ok := lastCall[lk]; ok {
@@ -180,7 +201,7 @@ func evalSeq(cs *Case, withIsolation bool) *caseResult {
 					dir = "passed although every documented accounting puts the bucket over its limit"
 					short = "passed-over-limit"
 				}
-				sig := fmt.Sprintf("seq model: %s kind=%s limiter=%s event-time=%s", short, m.specs[in.Rule].kind, in.Limiter, in.Where)
+				sig := fmt.Sprintf(cl+" model: %s kind=%s limiter=%s event-time=%s", short, m.specs[in.Rule].kind, in.Limiter, in.Where)
 				res.Violations = append(res.Violations, viol{
 					Sig:     sig,
 					What:    fmt.Sprintf("event %d (rule %d, key %q, bucket %d of [%d,%d], amount %d) %s; limit=%d shares=%v", e.Idx, in.Rule, in.Key, in.Bucket, in.MinID, in.MaxID, in.Amount, dir, m.specs[in.Rule].limit, m.specs[in.Rule].shares),
@@ -192,7 +213,7 @@ func evalSeq(cs *Case, withIsolation bool) *caseResult {
 	if capped {
 		res.count("cases_with_capped_model_states", 1)
 	}
-	for _, sv := range sm.check(m, "seq") {
+	for _, sv := range sm.check(m, cl) {
 		res.Violations = append(res.Violations, viol{Sig: sv.Sig, What: sv.What, Witness: witness(cs, cs.NEvents, infos, dec, sv.Bkt.limKey)})
 		break
 	}
@@ -215,7 +236,14 @@ func evalSeq(cs *Case, withIsolation bool) *caseResult {
 		bs = append(bs, b)
 	}
 	sort.Strings(bs)
-	res.Fingerprint = "seq|" + cfgShape(&cs.Cfg) + "|" + strings.Join(bs, ",")
+	res.Fingerprint = cl + "|" + cfgShape(&cs.Cfg) + "|" + strings.Join(bs, ",")
+	if many {
+		evalManyExtras(cs, res, m, dec, infos, rulesAt, rejAt, evOfRule, withIsolation)
+		if cs.Seed%97 == 0 || len(res.Violations) > 0 {
+			res.Sample = sampleOf(cs, dec, infos)
+		}
+		return res
+	}
 
 	// keys never share a budget, checked without the model: the decisions
 	// for one key must not change when all other keys' events are removed.
